@@ -217,7 +217,7 @@ func (vc *VC) loadGlobals(pkgPath string, names []string) error {
 		t := g.Type().(*types.Pointer).Elem()
 		val, ok := dl.value(d.Roots[n], t)
 		if ok {
-			dl.facts = append(dl.facts, Eq(vc.heapGet(vc.entry, key), val))
+			dl.note(vc.heapGet(vc.entry, key), val)
 		}
 	}
 	// all table objects are distinct, non-nil, pre-existing
@@ -236,6 +236,17 @@ func (vc *VC) loadGlobals(pkgPath string, names []string) error {
 }
 
 const tableRefBase = 100000
+
+// note records a ground cell value so that specifications reading the table at literal positions fold to literals.
+func (dl *dumpLoader) note(cell, val *Term) {
+	dl.facts = append(dl.facts, Eq(cell, val))
+	if dl.vc.groundVals == nil {
+		dl.vc.groundVals = map[string]*Term{}
+	}
+	if _, ok := intLitVal(val); ok || val.Op == "mk-slice" || val.IsTrue() || val.IsFalse() {
+		dl.vc.groundVals[cell.String()] = val
+	}
+}
 
 func (dl *dumpLoader) ref(id string) *Term {
 	if r, ok := dl.refs[id]; ok {
@@ -329,7 +340,7 @@ func (dl *dumpLoader) value(raw json.RawMessage, t types.Type) (*Term, bool) {
 			arr := Select(vc.heapGet(vc.entry, key), r)
 			for i, e := range obj.E {
 				if ev, ok := dl.value(e, u.Elem()); ok {
-					dl.facts = append(dl.facts, Eq(Select(arr, vc.idx(int64(i))), ev))
+					dl.note(Select(arr, vc.idx(int64(i))), ev)
 				}
 			}
 		}
@@ -384,7 +395,7 @@ func (dl *dumpLoader) object(r *Term, raw json.RawMessage, t types.Type) {
 		for i := 0; i < u.NumFields(); i++ {
 			if fv, ok := dl.value(obj.S[i], u.Field(i).Type()); ok {
 				key, _ := vc.fieldKey(t, i)
-				dl.facts = append(dl.facts, Eq(Select(vc.heapGet(vc.entry, key), r), fv))
+				dl.note(Select(vc.heapGet(vc.entry, key), r), fv)
 			}
 		}
 	case *types.Array:
